@@ -93,6 +93,7 @@ func checkC11(p *Program, r *Report) {
 	c11Fresh(p, r)
 	c11HelperTight(p, r)
 	c11FreshElement(p, r)
+	c14NullElement(p, r) // NULL elements survive the round trip (shared with C14)
 	c11Preferred(p, r, c12CodecMap(p, newScratchReport(), loadValueSpec()))
 	for _, tn := range codecImpls(p) {
 		T := tn.Type().(*types.Named)
@@ -208,6 +209,9 @@ func c11Purity(p *Program, r *Report, tn *types.TypeName, to, from *types.Func) 
 		if !strings.Contains(e, "x") {
 			return "the result does not depend on the input (" + e + ")"
 		}
+		if strings.Contains(e, "signcast<") {
+			return "the value passes through a cast that changes its signedness without a range check (" + e + "): values above the signed maximum (or below zero) come out as different numbers"
+		}
 		if m := opRe.FindString(e); m != "" {
 			return fmt.Sprintf("the value is computed with the operator%sinstead of being converted (%s)", m, e)
 		}
@@ -244,7 +248,7 @@ func c11Purity(p *Program, r *Report, tn *types.TypeName, to, from *types.Func) 
 	// convertTo: alternatives of result 0
 	fn := p.SSA().FuncValue(to)
 	toCalls := map[string]bool{}
-	ctx := &provCtx{p: p, env: map[*ssa.Parameter]string{}, seen: map[ssa.Value]bool{}, noInline: true, calls: toCalls}
+	ctx := &provCtx{p: p, env: map[*ssa.Parameter]string{}, seen: map[ssa.Value]bool{}, noInline: true, calls: toCalls, signCasts: true}
 	srcParam := "$" + fn.Params[0].Name()
 	rootRe := regexp.MustCompile(`\*?` + regexp.QuoteMeta(srcParam) + `\.\(([^()]|\([^()]*\))*\)`)
 	seen := map[string]bool{}
@@ -299,7 +303,7 @@ func c11Purity(p *Program, r *Report, tn *types.TypeName, to, from *types.Func) 
 	// convertFrom: stores through the asserted destination
 	fn = p.SSA().FuncValue(from)
 	fromCalls := map[string]bool{}
-	ctx = &provCtx{p: p, env: map[*ssa.Parameter]string{}, seen: map[ssa.Value]bool{}, noInline: true, calls: fromCalls}
+	ctx = &provCtx{p: p, env: map[*ssa.Parameter]string{}, seen: map[ssa.Value]bool{}, noInline: true, calls: fromCalls, signCasts: true}
 	valParam := "$" + fn.Params[0].Name()
 	perDest := map[string][]string{}
 	for _, b := range fn.Blocks {
